@@ -362,6 +362,7 @@ def r3(ctx):
             ok, why = _nonempty_guarded(P, g, n, operand.id)
             ctx.check(ok, "C14.R3", inst, g.module.line(n), ctx.construct(g, n), why)
     ctx.floor("C14.R3", n_partial, 4, "partial operations on operands")
+    _filtered_next(ctx)
     # `power`: the number of operands of the product must be proven >= 1
     pw = [r for r in recs if r.symbol == "**"]
     if pw and isinstance(pw[0].to_terms, ast.Name):
@@ -371,6 +372,44 @@ def r3(ctx):
         ctx.look()
         ctx.check(ok, "C14.R3", "`**`: the exponent is proven strictly positive before the product is reduced", pf.where,
                   ctx.construct(pf, text="guard positive"), msg)
+
+
+def _filtered_next(ctx):
+    """Anywhere in the parsing path: `next(<generator expression>)` without a default is a partial operation — when nothing matches the
+    generator's filter it raises StopIteration, which is not a formula parsing error.  (None on today's tree; the rule is kept armed by a
+    self-validation variant.)"""
+    P = ctx.project
+    n_next = 0
+    for q, g in sorted(P.functions.items()):
+        if isinstance(g.node, ast.Lambda) or not g.module.name.startswith(("formulaic.parser", "formulaic.formula", "formulaic.utils.code", "formulaic.utils.iterators")):
+            continue
+        for c in walk_no_nested(g.node):
+            if isinstance(c, ast.Call) and dotted(c.func) == "next":
+                n_next += 1
+                ctx.look()
+                if len(c.args) != 1 or c.keywords:
+                    continue
+                a = c.args[0]
+                if isinstance(a, ast.Call) and dotted(a.func) == "iter" and len(a.args) == 1:
+                    a = a.args[0]
+                if not isinstance(a, (ast.GeneratorExp, ast.ListComp, ast.SetComp)):
+                    continue
+                handled, cur = False, P.parent(c)
+                while cur is not None and cur is not g.node:
+                    if isinstance(cur, ast.Try) and any(h.type is None or any(isinstance(x, ast.Name) and x.id in ("StopIteration", "Exception", "BaseException")
+                                                                              for x in ast.walk(h.type)) for h in cur.handlers):
+                        handled = True
+                    cur = P.parent(cur)
+                unfiltered = not any(gen.ifs for gen in a.generators)
+                why_ok = ""
+                if unfiltered and len(a.generators) == 1 and isinstance(a.generators[0].iter, ast.Name):
+                    ok_, why_ok = _nonempty_guarded(P, g, c, a.generators[0].iter.id)
+                    handled = handled or ok_
+                ctx.check(handled, "C14.R3", f"{g.qualname.replace('formulaic.', '')}: `next(…)` over a comprehension has a default or a StopIteration handler",
+                          g.module.line(c), ctx.construct(g, c),
+                          f"`{norm(c)[:90]}` raises StopIteration when no element passes the filter (e.g. a term made only of literals): an internal exception "
+                          f"escapes instead of the library's parsing error")
+    ctx.ok("C14.R3", f"no unguarded `next(<comprehension>)` among {n_next} next() calls of the parsing path", "formulaic/parser")
 
 
 def _nonempty_guarded(P: Project, g: FunctionInfo, node: ast.AST, name: str) -> Tuple[bool, str]:
